@@ -9,7 +9,8 @@ Per case (same case format as C20, tools/C20_okl.py):
        T1  exactly one `#pragma omp parallel for`, immediately before each outer-most @outer loop, and no other
            OpenMP work-sharing / parallel pragma anywhere;
        T2  every @shared / @exclusive declaration and the `_occa_exclusive_index` declaration is inside the body of
-           that loop (so it is private to the iteration);
+           that loop and has automatic storage (no static / thread_local / extern ... qualifier), so it is one object
+           per iteration — the premise of task_state_is_private;
        T3  every statement that was `@atomic` in the OKL source is immediately preceded by `#pragma omp atomic` or
            `#pragma omp critical`;
        X1/X2 (tools/C20_run.py exclusive_index_check) one reset of `_occa_exclusive_index` per inner nest in the body of
@@ -42,7 +43,8 @@ LINE_OK = [
     r"^for \((int )?\w+ = 0; \w+ < [^;]+; \+\+\w+\) \{\}?$",
     r"^\}$", r"^else \{\}?$", r"^if \(.*\) \{\}?$",
     r"^int v0 = 0(, v\d+ = 0)*;$",
-    r"^int (s\d+|x\d+)\[\d+\];$", r"^int _occa_exclusive_index;$",
+    r"^((static|thread_local|extern|register|const|volatile|constexpr|__thread) )*int (s\d+|x\d+)\[\d+\];$",
+    r"^((static|thread_local|extern|register|const|volatile|constexpr|__thread) )*int _occa_exclusive_index;$",
     r"^_occa_exclusive_index = 0;$", r"^\+\+_occa_exclusive_index;$",
     r"^;$",
     r"^#pragma omp (parallel for|atomic|critical)$",
@@ -126,8 +128,12 @@ def structure_check(K, src):
             ob_depth = depth
         if re.match(r"^for \(int (o1|i0|i1) = 0;", l) and prev.startswith("#pragma"):
             bad.append("T1 pragma before a nested loop: " + prev)
-        m = re.match(r"^int (s\d+|x\d+)\[\d+\];$|^int (_occa_exclusive_index);$", l)
+        m = re.match(r"^((?:\w+ )*)int (?:(?:s\d+|x\d+)\[\d+\]|_occa_exclusive_index);$", l)
         if m:
+            quals = m.group(1).split()
+            if quals:
+                # task_state_is_private needs one object per iteration: automatic storage only
+                bad.append("T2 declaration without automatic storage (%s): %s" % (" ".join(quals), l[:60]))
             if ob == -1 or ob >= nob:
                 bad.append("T2 declaration outside the parallel loop: " + l)
             else:
